@@ -22,6 +22,7 @@ import (
 	"go/types"
 	"os"
 	"path/filepath"
+	"regexp"
 	"sort"
 	"strings"
 	"time"
@@ -36,6 +37,7 @@ type directives struct {
 	entries  []string
 	tEntries []string
 	models   [][2]string
+	modelRes [][2]string
 	bounds   []string
 	assumes  []string
 }
@@ -77,6 +79,12 @@ func parseDirectives(files []string) (*directives, error) {
 					return nil, fmt.Errorf("bad model directive: %s", line)
 				}
 				d.models = append(d.models, [2]string{fs[0], fs[1]})
+			case "model-re":
+				fs := strings.Fields(val)
+				if len(fs) < 2 {
+					return nil, fmt.Errorf("bad model-re directive: %s", line)
+				}
+				d.modelRes = append(d.modelRes, [2]string{fs[0], fs[1]})
 			case "bound":
 				d.bounds = append(d.bounds, val)
 			case "assume":
@@ -242,6 +250,18 @@ func main() {
 		eng.models[m[0]] = fn
 		o.ModelFuncs = append(o.ModelFuncs, m[0]+" => "+m[1])
 	}
+	for _, m := range d.modelRes {
+		fn := hpkg.Func(m[1])
+		if fn == nil {
+			fatal(*outp, o, fmt.Errorf("model function %s not found in harness package", m[1]))
+		}
+		re, rerr := regexp.Compile(m[0])
+		if rerr != nil {
+			fatal(*outp, o, rerr)
+		}
+		eng.modelRes = append(eng.modelRes, modelRe{re, fn})
+		o.ModelFuncs = append(o.ModelFuncs, "/"+m[0]+"/ => "+m[1])
+	}
 	// validate that every modelled callee exists (a renamed callee must not
 	// silently disable a model)
 	known := map[string]bool{}
@@ -289,7 +309,7 @@ func main() {
 				}
 			}
 			o.Functions = append(o.Functions, funcInfo{Name: fn.String(), Pos: pos, Instrs: n, Hash: fmt.Sprintf("%x", h.Sum(nil))[:12]})
-		} else if fn.Pkg != nil && fn.Blocks != nil {
+		} else if fn.Blocks != nil {
 			o.ExternalSSA = append(o.ExternalSSA, fn.String())
 		}
 	}
